@@ -16,7 +16,7 @@ CHECKS = {
  "C02": ("exploration",
          "TLA+ specifications as generator (as C01); oracle = slogdet of the autodiff Jacobian of the plain transform in float64, one-sided at points the specification classifies as kinks, finite differences as tie-breaker where autodiff through clip/where is ambiguous",
          "Same population and points as C01. The reported forward log-det must equal log|det| of jax.jacobian(transform); the inverse log-det must be minus the forward value at the corresponding point; both must be scalars. At kinks (spline interval end with boundary derivative != 1, planar leaky-relu hyperplane) either one-sided limit is accepted. The exact log2-dets of composites are model-checked under C08, exact spline derivatives under C07.",
-         "jnp.clip / jnp.where give gradient 1/2 or 0 at exact ties (e.g. a spline output landing exactly on its interval end), so an autodiff mismatch is re-judged with one-sided and central finite differences to 2e-4 before it is reported (the artefacts are multiples of ln 2).",
+         "jnp.clip / jnp.where give gradient 1/2 or 0 at exact ties (e.g. a spline output landing exactly on its interval end), so an autodiff mismatch is re-judged with one-sided and central finite differences to 2e-4 before it is reported (the artefacts are multiples of ln 2). For the Tanh leaf the reference is log sech^2 in its stable form (autodiff's 1 - tanh^2 cancels where tanh saturates). A third tie-breaker extrapolates the autodiff log-det linearly from 2^10 and 2^11 ulps away along every coordinate direction. A non-finite reported log-det is compared with an absolute tolerance.",
          "DESIGN.md 5 (C02)"),
  "C03": ("model_checking",
          "TLA+ specification of the three evaluation paths of Transformed (log_prob / sample / sample_and_log_prob) over the exact combinator semantics with an exact-integer base distribution (Flows.tla), model-checked with TLC over nested expressions; every expression TLC prints is built from the real classes and all three methods (also after merge_transforms) compared with TLC's integers; real flows of all five factories checked against the property's statement via their public parts",
@@ -31,7 +31,7 @@ CHECKS = {
  "C06": ("model_checking",
          "TLA+ specification of NumPy broadcasting of batch shapes, the per-element (x slice, condition slice) index maps and the key assignment of the distribution vectoriser (Vectorize.tla), model-checked with TLC over a shape lattice; every configuration TLC prints is replayed on real distributions and each output element compared with the unbatched public call on the slices TLC designates",
          "TLC enumerates (event shape rank 0-2) x (condition shape none / rank 0-2) x (batch shapes of x and of the condition incl. size-1 axes, zero extents, pairs that must be rejected) x sample_shapes, checks the index maps are total, onto and aligned and the key map injective, and writes the maps out; the real log_prob / sample / sample_and_log_prob must have TLC's result shapes, every element must equal the unbatched call on the designated slices, draws must be pairwise distinct and reproducible, non-broadcastable pairs must raise.",
-         "Reference values are the same distribution's public methods called with exact (unbatched) shapes. The key schedule (element k uses split(key, n)[k]) is implementation-layer: a different but fresh schedule gives a drift note, not a violation.",
+         "Reference values are the same distribution's public methods called with exact (unbatched) shapes. The key schedule (element k uses split(key, n)[k]) is implementation-layer: a different but fresh schedule gives a drift note, not a violation. Unconditional distributions given a condition (which composites hand down to them) must behave as without it: same shapes, and the same values for the same key.",
          "DESIGN.md 4.7, 5 (C06)"),
  "C07": ("model_checking",
          "TLA+ specification of the elementary bijections over exact rationals (Elementary.tla + Rat.tla) model-checked with TLC; every (configuration, point) state is replayed into the real class and compared with TLC's exact rational; transcendental leaves compared with the documented formula evaluated in NumPy",
@@ -46,7 +46,7 @@ CHECKS = {
  "C17": ("exploration",
          "TLA+ specification of the contrastive index discipline and the ELBO key discipline (Losses.tla) model-checked with TLC; recorded (x-tag, condition-tag) pairs of the real ContrastiveLoss validated by TLC against Trace_Losses.tla; the other estimators compared with their defining formulas evaluated through the distribution's public methods",
          "Contrastive: every (batch size 2..8, n_contrastive 1..batch-1) run on a tagged user-supplied distribution is a trace TLC accepts only if, for every row, the row itself is evaluated exactly once (the positive) and exactly n distinct other rows are used; the value must equal the softmax cross-entropy recomputed from the recorded sets and be non-negative. ML and ELBO: equality with -mean log_prob and with the mean over sample_and_log_prob(key, (n,)); same ELBO value with stick-the-landing; STL gradient = path-only surrogate; plain - STL gradient = mean score term (a forgotten stop_gradient is about 1e7 above the tolerance). Contrastive runs alternate unit-scale rows with rows spread by 8 / 40 / 300 (logit gaps of thousands of nats).",
-         "Exploration level: the numeric estimator identities are decided by running the code; TLC decides the index discipline of the recorded pairs. The tagged distribution and prior are user-defined AbstractDistribution subclasses.",
+         "Exploration level: the numeric estimator identities are decided by running the code; TLC decides the index discipline of the recorded pairs. The tagged distribution and prior are user-defined AbstractDistribution subclasses. Every contrastive run builds a new loss object whose prior has the same class and pytree structure but another parameter value, and evaluates it both directly and as an argument of one jitted caller (a cache keyed on what the loss looks like would return the earlier prior's value).",
          "DESIGN.md 4.10, 5 (C17)"),
  "C18": ("exploration",
          "TLA+ specifications as generator (Elementary.tla guards give the boundary set of every leaf); oracle = finiteness of log_prob and of its input and parameter gradients on the real code",
@@ -81,7 +81,7 @@ CHECKS = {
  "C14": ("exploration",
          "TLA+ specifications as generator (as C01); oracle = the implementation under another interpreter: eager twice, eqx.filter_jit of the bound method, jax.vmap against a Python loop, tree_flatten/unflatten copy, tree_serialise_leaves into a freshly built model",
          "Every population entry x every method: a trace-time failure (Python branch on a tracer, NumPy on a tracer, boolean-mask indexing) is a violation; values must agree to 1e-9 relative (1e-4 for bisection-inverted maps) and copies in the same mode must be bit-identical. Distributions (named families and flows) likewise for log_prob and sample.",
-         "eager vs jit and vmap vs loop are not bit-identical on correct code (XLA fuses differently), hence the relative tolerance.",
+         "eager vs jit and vmap vs loop are not bit-identical on correct code (XLA fuses differently), hence the relative tolerance. The population includes user-defined AbstractBijection subclasses and Partial with NumPy boolean masks / NumPy index arrays.",
          "DESIGN.md 5 (C14)"),
  "C15": ("model_checking",
          "TLA+ state machine of fit_to_data (FitToData.tla, Batching.tla) model-checked with TLC; recorded event traces of the real fit_to_data validated against Trace_FitToData.tla by TLC; TLC-enumerated helper cases replayed into get_batches/train_val_split",
